@@ -693,6 +693,38 @@ pub fn id_to_zxy(id: u64) -> Option<(u8, u64, u64)> {
     Some((z, x, y))
 }
 
+/// Harness self-test of the independent Hilbert implementation (known values from the
+/// specification, forward/inverse consistency). A failure is a harness defect (exit 2).
+pub fn selftest() -> Result<(), String> {
+    let known = [((0u8, 0u64, 0u64), 0u64), ((1, 0, 0), 1), ((1, 0, 1), 2), ((1, 1, 1), 3), ((1, 1, 0), 4), ((2, 0, 0), 5), ((12, 3423, 1763), 19_078_479)];
+    for ((z, x, y), id) in known {
+        if zxy_to_id(z, x, y) != id {
+            return Err(format!("spec hilbert: ({z},{x},{y}) -> {} expected {id}", zxy_to_id(z, x, y)));
+        }
+        if id_to_zxy(id) != Some((z, x, y)) {
+            return Err(format!("spec hilbert: id {id} -> {:?} expected ({z},{x},{y})", id_to_zxy(id)));
+        }
+    }
+    let mut r = crate::rng::Rng::new(1);
+    for _ in 0..2000 {
+        let id = r.range(0, max_valid_id());
+        let Some((z, x, y)) = id_to_zxy(id) else {
+            return Err(format!("spec hilbert: id {id} has no coordinates"));
+        };
+        if zxy_to_id(z, x, y) != id {
+            return Err(format!("spec hilbert: id {id} -> ({z},{x},{y}) -> {}", zxy_to_id(z, x, y)));
+        }
+    }
+    if id_to_zxy(max_valid_id() + 1).is_some() || zoom_base(1) != 1 || zoom_base(2) != 5 {
+        return Err("spec hilbert: zoom bases".into());
+    }
+    // exact coordinate rule: known cases
+    if nearest_e7(2.1e-6) != Some((21, 21)) || nearest_e7(-180.0) != Some((-1_800_000_000, -1_800_000_000)) || nearest_e7(0.0) != Some((0, 0)) {
+        return Err("coordinate rule self-test".into());
+    }
+    Ok(())
+}
+
 /// Largest valid tile id (last id of zoom 31).
 pub fn max_valid_id() -> u64 {
     zoom_base(32) - 1
